@@ -16,7 +16,7 @@ Verdict(o) ==
 TInit == l = 1 /\ case = Blank /\ stage = "trace" /\ n = 0
 TNext ==
     /\ l <= Len(Obs)
-    /\ LET v == Verdict(Obs[l]) IN v = "ok" \/ PrintT(<<"VERDICT", Obs[l].tid, v>>)
+    /\ LET v == Verdict(Obs[l]) IN IF v = "ok" THEN TRUE ELSE PrintT(<<"VERDICT", Obs[l].tid, v>>)
     /\ l' = l + 1
     /\ UNCHANGED vars
 =============================================================================
